@@ -256,6 +256,7 @@ def run(prog, tier, res):
         res.hit(R5)
     else:
         res.violate(R5, "constants", "geometry", "geometry constants disagree: %s" % consts, "")
+    identity_impls(prog, res)
     # ------------------------------------------------------------------ R6: the pad map inside one PWB is a bijection
     R6 = res.rule("C08.R6", "INV_PADS_0: (chip 0..=3, channel 1..=72) -> (pad column 0..=3, pad row 0..=71) is keyed by the loop variables, "
                   "total, injective and onto (the loop body's path formulas evaluated over the 4 x 72 iteration domain)", 288)
@@ -307,3 +308,32 @@ def run(prog, tier, res):
                 res.violate(R6, STATIC, k_, what, ib.where())
     res.undecided = ["numerical phi values",
                      "whether each run-number threshold is the physically right one (no oracle in the repository other than the constants themselves)"]
+
+
+def identity_impls(prog, res):
+    """C08.R7: equality, hashing and ordering of the detector crate's identity types are structural.  "Distinct names denote
+    distinct channels" is decided by the tables and parsers above on the VALUES they build; it reaches the user through
+    `==`, `HashMap` keys and sorting, i.e. through these impls.  A `#[derive]`d impl (body from macro expansion) compares
+    every field; a hand-written one is accepted when it calls nothing but comparison / hashing (trait methods of PartialEq, Ord,
+    PartialOrd, Hash, Hasher, Ordering) on projections of its arguments, and reported otherwise (a helper between the fields and the comparison would have to be shown injective)."""
+    R7 = res.rule("C08.R7", "identity types: PartialEq / Hash / Ord / PartialOrd impls are derived or call only std comparison/hashing on their fields", 30)
+    TRAITS = ("std::cmp::PartialEq", "std::hash::Hash", "std::cmp::Ord", "std::cmp::PartialOrd")
+    from ..facts import callee_of
+    for p_, b in sorted(prog.bodies.items()):
+        if b.kind != "AssocFn" or b.j.get("impl_trait") not in TRAITS or not (b.j.get("impl_self_s") or "").startswith("alpha_g_detector::"):
+            continue
+        if b.j.get("name") not in ("eq", "ne", "hash", "cmp", "partial_cmp"):
+            continue
+        res.functions.add(p_)
+        if (b.j.get("span") or {}).get("exp"):
+            res.oblige(True, "table")
+            res.hit(R7)
+            continue
+        foreign = sorted(set(c for c in (callee_of(t) for _, t in b.calls()) if c and not any(k in c for k in ("cmp::PartialEq", "cmp::Ord", "cmp::PartialOrd", "hash::Hash", "hash::Hasher", "cmp::Ordering", "Option::<T>::then", "mem::discriminant"))))
+        res.oblige(not foreign, "table")
+        if foreign:
+            res.violate(R7, p_, "non-structural:" + foreign[0].split("::")[-1],
+                        "hand-written %s of the identity type %s goes through %s instead of comparing the fields themselves: distinct values may compare / hash equal"
+                        % (b.j.get("impl_trait"), b.j.get("impl_self_s"), foreign), b.where())
+        else:
+            res.hit(R7)
